@@ -114,6 +114,25 @@ def registered_theorems():
         return json.load(f)
 
 
+def import_closure(mod):
+    """paths of the project files transitively imported by module `mod` (including itself)"""
+    seen, todo, out = set(), [mod], []
+    while todo:
+        m = todo.pop()
+        if m in seen:
+            continue
+        seen.add(m)
+        path = os.path.join(LEAN, *m.split(".")) + ".lean"
+        if not os.path.exists(path):
+            continue
+        out.append(path)
+        for ln in open(path):
+            mm = re.match(r"\s*import\s+(EoNVerif[\w.]*)", ln)
+            if mm:
+                todo.append(mm.group(1))
+    return out
+
+
 def proof_audit(pid, thorough=False):
     """Returns dict(obligations, discharged, failures[list of str], theorems[list]).
     obligation = one registered property theorem of Props/<pid>.lean; discharged = it exists, elaborates, and
@@ -147,17 +166,16 @@ def proof_audit(pid, thorough=False):
                 results[t] = set()
             else:
                 failures.append("theorem %s missing or not elaborating" % t)
-    # forbidden tokens (outside comments) anywhere in the library
+    # forbidden tokens (outside comments) in every file the property module transitively imports
     grep_bad = []
-    for root, _, files in os.walk(os.path.join(LEAN, "EoNVerif")):
-        for fn in files:
-            if fn.endswith(".lean"):
-                src = open(os.path.join(root, fn)).read()
-                src = re.sub(r"/-.*?-/", "", src, flags=re.S)
-                for ln in src.splitlines():
-                    code = ln.split("--")[0]
-                    if FORBIDDEN.search(code):
-                        grep_bad.append("%s: %s" % (fn, ln.strip()[:80]))
+    for path in import_closure(mod):
+        fn = os.path.basename(path)
+        src = open(path).read()
+        src = re.sub(r"/-.*?-/", "", src, flags=re.S)
+        for ln in src.splitlines():
+            code = ln.split("--")[0]
+            if FORBIDDEN.search(code):
+                grep_bad.append("%s: %s" % (fn, ln.strip()[:80]))
     if grep_bad:
         failures.append("forbidden tokens: " + "; ".join(grep_bad[:5]))
     obligations = len(reg) + 1
